@@ -110,7 +110,7 @@ func TestVerifC17TLS(t *testing.T) {
 	defer rep.Write()
 	rep.Rule = "E1 full matrix with real crypto/tls on loopback: (upstream) kind {tls, https} x URL host {dot.example, 1.2.3.4, [::1], [2001:db8::53]} (dialled via dial_addr to a local server) x server certificate {valid for all hosts, wrong name, unknown CA, expired, self-signed} x options {ca configured, no ca, insecure_skip_verify} built by the real makeTlsConfig; " +
 		"oracle: exchange succeeds iff verification is disabled or (ca configured and certificate valid); SNI equals the URL host for names (none for IP literals) and the HTTP Host header equals the URL host; " +
-		"(listener) kind {tls, https, quic} started by the real start*Server with cert/key/ca files x verify_client_cert {off,on} x client certificate {none, signed by the configured CA, signed by another CA, expired}; oracle: with verification on a query is answered only for the certificate chaining to the configured CA"
+		"(listener) kind {tls, https, quic} started by the real start*Server with cert/key/ca files x verify_client_cert {off, on with ca, on without ca (system roots)} x client certificate {none, signed by the configured CA, signed by another CA, expired}; oracle: with verification on a query is answered only for the certificate chaining to the configured CA"
 	if sh, _ := report.Shard(); sh != 0 {
 		rep.Eval("idle-shard")
 		rep.Eval("idle-shard2")
@@ -269,7 +269,8 @@ func TestVerifC17TLS(t *testing.T) {
 		{"signed-by-other-ca", func() *tls.Certificate { c, _, _ := other.issue("client", nil, nil, false, true); return &c }(), false},
 		{"expired", func() *tls.Certificate { c, _, _ := ca.issue("client", nil, nil, true, true); return &c }(), false},
 	}
-	for _, verify := range []bool{false, true} {
+	for _, mode := range []string{"verify-off", "verify-on+ca", "verify-on-no-ca"} {
+		verify := mode != "verify-off"
 		cfgR := c03Config("forward")
 		v, err := vNewRouter(cfgR, "u1")
 		if err != nil {
@@ -277,6 +278,9 @@ func TestVerifC17TLS(t *testing.T) {
 		}
 		v.ups["u1"].Auto = func(q *upQuery) *upResult { return &upResult{wire: env.Answer(q.Msg, 1, 60).Encode(false)} }
 		tlsCfg := TlsConfig{Cert: certFile, Key: keyFile, CA: caFile, VerifyClientCert: verify}
+		if mode == "verify-on-no-ca" {
+			tlsCfg.CA = "" // system roots: none of the harness-minted client certificates chains to them
+		}
 		tcpS, err1 := v.r.startTcpServer(&ServerConfig{Protocol: "tls", Listen: "127.0.0.1:0", Tls: tlsCfg}, true)
 		httpS, err2 := v.r.startHttpServer(&ServerConfig{Protocol: "https", Listen: "127.0.0.1:0", Tls: tlsCfg}, true)
 		quicS, err3 := v.r.startQuicServer(&ServerConfig{Protocol: "quic", Listen: "127.0.0.1:0", Tls: tlsCfg})
@@ -291,9 +295,9 @@ func TestVerifC17TLS(t *testing.T) {
 			if cc.cert != nil {
 				ccfg.Certificates = []tls.Certificate{*cc.cert}
 			}
-			want := !verify || cc.good
+			want := !verify || (cc.good && mode == "verify-on+ca")
 			judge := func(kind string, served bool, detail string) {
-				desc := fmt.Sprintf("listener=%s verify_client_cert=%v client-cert=%s", kind, verify, cc.name)
+				desc := fmt.Sprintf("listener=%s %s client-cert=%s", kind, mode, cc.name)
 				rep.Eval(desc)
 				if served && !want {
 					rep.Violate(fmt.Sprintf("C17:listener:served-unauthenticated-client:%s:cert=%s", kind, cc.name), "a query was served to a client without an acceptable certificate: "+desc, nil)
